@@ -261,7 +261,12 @@ impl Command {
 
     /// Executes the command as a child process, waiting for it to finish and
     /// collecting all of its output.
+    ///
+    /// Standard output and standard error are always captured through pipes
+    /// (a previous configuration of these two handles is overridden).
     pub async fn output(&mut self) -> io::Result<process::Output> {
+        self.0.stdout(process::Stdio::piped());
+        self.0.stderr(process::Stdio::piped());
         let child = self.spawn()?;
         child.wait_with_output().await
     }
